@@ -423,22 +423,73 @@ class LibLab:
         self.dir = Path(tempfile.mkdtemp(prefix=f"{tag}-", dir=WORK))
         self.n = 0
         self.calls = 0
+        self.pending = []
         warnings.filterwarnings("ignore", category=RuntimeWarning)
 
     def cleanup(self):
         shutil.rmtree(self.dir, ignore_errors=True)
 
-    def session(self, kind, ver, items, rnd, read_in_writer=True, mutate=None, legacy=()):
+    def session(self, kind, ver, items, rnd, read_in_writer=True, mutate=None, legacy=(), before=None, fresh=False):
         """items: [(key, real object)] put through the library; legacy: [(key, raw record bytes)] placed in the
-        legacy file beforehand, the way a previous molli left them (only with ver == 1).  Returns the events.
-        mutate(event) may corrupt an event (binding demonstration only)."""
+        legacy file beforehand, the way a previous molli left them (only with ver == 1).
+        before = (ver0, items0, legacy0): the same is first done with ANOTHER file at the same path, which is then
+        removed (event `remove`): the path is reused within this process.
+        fresh: the final file is kept and read once more by a separate python process (finish_fresh()).
+        Returns the events.  mutate(event) may corrupt an event (binding demonstration only)."""
         self.n += 1
-        cls = self.ml.MoleculeLibrary if kind == "mol" else self.ml.ConformerLibrary
-        cname = "Molecule" if kind == "mol" else "ConformerEnsemble"
         path = self.dir / f"l{self.n}.{'mlib' if kind == 'mol' else 'clib'}"
         ev = []
         old = signal.signal(signal.SIGALRM, _alarm)
         signal.alarm(120)
+        keep = False
+        try:
+            if before is not None:
+                self._phase(path, kind, before[0], before[1], before[2], rnd, ev, read_in_writer)
+                path.unlink()
+                ev.append({"ev": "remove"})
+            self._phase(path, kind, ver, items, legacy, rnd, ev, read_in_writer)
+            if fresh and path.is_file():
+                keep = True
+                self.pending.append((str(path), kind, ev))
+        finally:
+            signal.alarm(0)
+            signal.signal(signal.SIGALRM, old)
+            if not keep:
+                try:
+                    path.unlink()
+                except OSError:
+                    pass
+        if mutate:
+            for e in ev:
+                mutate(e)
+        return ev
+
+    def finish_fresh(self):
+        """One separate python process constructs a read-only library object on every kept file, lists the keys and
+        reads every object; its observations are appended to the traces as events of the handle "f"."""
+        if not self.pending:
+            return
+        import json, subprocess, sys
+        job = self.dir / "fresh.json"
+        job.write_text(json.dumps([[p, k] for p, k, _ in self.pending]))
+        try:
+            p = subprocess.run([sys.executable, "-m", "mbv.adapters.c01_lib", "--fresh", str(job)], capture_output=True,
+                               text=True, timeout=300)
+            res = json.loads(p.stdout) if p.returncode == 0 else None
+        except Exception as e:                       # a hung or crashed child: every file gets a failed open
+            p, res = None, None
+        for i, (path, kind, ev) in enumerate(self.pending):
+            if res is None:
+                ev.append({"ev": "open", "h": "f", "kind": "Molecule" if kind == "mol" else "ConformerEnsemble",
+                           "out": "ChildProcessError", "keys": [], "err": (p.stderr[-300:] if p else "timeout")})
+            else:
+                ev.extend(res[i])
+                self.calls += len(res[i])
+        self.pending = []
+
+    def _phase(self, path, kind, ver, items, legacy, rnd, ev, read_in_writer):
+        cls = self.ml.MoleculeLibrary if kind == "mol" else self.ml.ConformerLibrary
+        cname = "Molecule" if kind == "mol" else "ConformerEnsemble"
         w = r = None
         try:
             if ver == 1:
@@ -500,19 +551,9 @@ class LibLab:
             except Exception as e:
                 ev.append({"ev": "open", "h": "r", "kind": cname, "out": exc_name(e), "keys": []})
         finally:
-            signal.alarm(0)
-            signal.signal(signal.SIGALRM, old)
             for lib in (w, r):
                 if lib is not None:
                     forget(lib)
-            try:
-                path.unlink()
-            except OSError:
-                pass
-        if mutate:
-            for e in ev:
-                mutate(e)
-        return ev
 
     def _get(self, h, lib, k):
         self.calls += 1
@@ -662,3 +703,38 @@ def _leaves(m):
     else:
         for c in m:
             yield from _leaves(c)
+
+
+# ----------------------------------------------------------------------------- fresh-process reader
+def _fresh_main(job):
+    """Child process: read-only library object on each file, keys, every object -> events of handle "f"."""
+    import json, sys
+    import molli as ml
+    warnings.filterwarnings("ignore", category=RuntimeWarning)
+    out = []
+    for path, kind in json.loads(Path(job).read_text()):
+        cls = ml.MoleculeLibrary if kind == "mol" else ml.ConformerLibrary
+        cname = "Molecule" if kind == "mol" else "ConformerEnsemble"
+        ev = []
+        try:
+            lib = cls(path, readonly=True)
+            with lib.reading(timeout=60):
+                keys = sorted(lib.keys())
+                ev.append({"ev": "open", "h": "f", "kind": cname, "out": "ok", "keys": sorted(tok(k) for k in keys)})
+                for k in keys:
+                    try:
+                        ev.append({"ev": "get", "h": "f", "k": tok(k), "out": "ok", "x": abstract(lib[k])})
+                    except Exception as e:
+                        ev.append({"ev": "get", "h": "f", "k": tok(k), "out": exc_name(e), "err": str(e)[:160]})
+        except Exception as e:
+            ev.append({"ev": "open", "h": "f", "kind": cname, "out": exc_name(e), "keys": [], "err": str(e)[:160]})
+        out.append(ev)
+    sys.stdout.write(json.dumps(out))
+
+
+if __name__ == "__main__":
+    import sys
+    if len(sys.argv) == 3 and sys.argv[1] == "--fresh":
+        signal.signal(signal.SIGALRM, _alarm)
+        signal.alarm(240)
+        _fresh_main(sys.argv[2])
